@@ -360,14 +360,14 @@ theorem determine_untrusted (N : Net Addr Prefix) (cfg : Cfg Prefix) (c : Conn) 
   | some host =>
     rw [hr] at hu
     cases hp : N.parseAddr host with
-    | none => simp [hp]
+    | none => simp [strOr, hp]
     | some ip =>
       simp only [hp] at hu ⊢
       cases hs : cfg.srvTrusted with
       | none => rfl
       | some ranges =>
         simp only [hs] at hu ⊢
-        simp [hu]
+        simp [hu, strOr]
 
 theorem determine_trusted (N : Net Addr Prefix) (cfg : Cfg Prefix) (c : Conn) (h : Header)
     (ht : serverTrusts N cfg c = true) :
